@@ -150,7 +150,7 @@ def strict(v, rows):
     """Strict validation of the recorded traces against Conn.tla (binding / drift). Traces that use
     the generic outgoing-notification step are not modelled by Conn.tla and are skipped."""
     tr = vlib.split_traces(rows)
-    keep = [(tid, t) for (tid, s, t) in tr if not any(x.get("ev") in ("notify.begin", "notifybad.begin") or (x.get("ev") == "rd.deliver" and x.get("kind") in ("init", "listen")) for x in t)]
+    keep = [(tid, t) for (tid, s, t) in tr if not any(x.get("ev") in ("notify.begin", "notifybad.begin", "callbad.begin") or (x.get("ev") == "rd.deliver" and x.get("kind") in ("init", "listen")) for x in t)]
     bad = {tid for (tid, s, t) in tr if any(x.get("ev") in ("panic", "setup.error") for x in t)}
     keep = [(tid, t) for (tid, t) in keep if tid not in bad]
     out = vlib.outdir(v.pid)
